@@ -201,7 +201,7 @@ theorem getSession_step {gen : Nat → Bytes} {cfg : Cfg} {c : RCtx} (h : Inv ge
   unfold getSession
   simp only
   -- the id and whether it was found
-  cases hraw : c.st.get (match c.locals with | some i => i | none => getSessionID cfg c) with
+  cases hraw : c.st.get (lookupId cfg c) with
   | none =>
     simp only [Option.isNone_none, if_true]
     have hn := newID_inv h
@@ -225,13 +225,13 @@ theorem getSession_step {gen : Nat → Bytes} {cfg : Cfg} {c : RCtx} (h : Inv ge
     have ha := acquire_inv (c := c) h
     have has := acquire_spec c
     have hmono : c.st.nid ≤ (acquire c).1.st.nid := by have := has.1; omega
-    have hiss : Issued gen (acquire c).1.st.nid (match c.locals with | some i => i | none => getSessionID cfg c) := by
+    have hiss : Issued gen (acquire c).1.st.nid (lookupId cfg c) := by
       rw [has.1]; exact hid
     split
     · exact ⟨⟨ha.1, hmono⟩, hiss⟩
     · split
       · have hr := sessReset_step (cfg := cfg) ha.1
-          { id := (match c.locals with | some i => i | none => getSessionID cfg c),
+          { id := (lookupId cfg c),
             data := (acquire c).2.merge blob, fresh := c.locals.isSome }
         exact ⟨⟨hr.1.inv, Nat.le_trans hmono hr.1.mono⟩, hr.2⟩
       · exact ⟨⟨ha.1, hmono⟩, hiss⟩
@@ -416,38 +416,39 @@ theorem runScript_inv {gen : Nat → Bytes} (cfg : Cfg) (as : List Act) {h : HSt
     have hr := ih ha.1
     exact ⟨hr.1, Nat.le_trans ha.2 hr.2⟩
 
+theorem startReq_hinv {gen : Nat → Bytes} (cfg : Cfg) {st : St} (hi : Inv gen st) (q : Req) :
+    HInv gen (startReq cfg gen st q) ∧ st.nid ≤ (startReq cfg gen st q).c.st.nid := by
+  unfold startReq
+  simp only
+  split
+  · have hg := getSession_step (cfg := cfg) (gen := gen) (c := { st := st, ck := q.ck, hd := q.hd, qr := q.qr }) hi
+    refine ⟨⟨hg.1.inv, ?_, ?_⟩, hg.1.mono⟩
+    · intro s hs; simp only [Option.some.injEq] at hs; subst hs; exact hg.2
+    · intro s hs; simp at hs
+  · refine ⟨⟨hi, ?_, ?_⟩, Nat.le_refl _⟩ <;> intro s hs <;> simp at hs
+
+theorem mwFinish_inv {gen : Nat → Bytes} (cfg : Cfg) {h : HSt} (hi : HInv gen h) :
+    Inv gen (mwFinish cfg h).st ∧ h.c.st.nid ≤ (mwFinish cfg h).st.nid := by
+  unfold mwFinish
+  split
+  · rename_i s hs
+    split
+    · exact ⟨hi.inv, Nat.le_refl _⟩
+    · have hsv := sessSave_step (cfg := cfg) hi.inv s (hi.mw s hs)
+      exact ⟨release_inv hsv.1.inv _, by simpa using hsv.1.mono⟩
+  · exact ⟨hi.inv, Nat.le_refl _⟩
+
 /-- a whole request keeps the invariants -/
 theorem handle_inv {gen : Nat → Bytes} (cfg : Cfg) {st : St} (hi : Inv gen st) (q : Req) :
     Inv gen (handle cfg gen st q).1 ∧ st.nid ≤ (handle cfg gen st q).1.nid := by
+  have h0 := startReq_hinv cfg hi q
+  have hr := runScript_inv cfg q.script h0.1
   unfold handle
   simp only
   split
-  · -- behind the middleware
-    have hg := getSession_step (cfg := cfg) (gen := gen) (c := { st := st, ck := q.ck, hd := q.hd, qr := q.qr }) hi
-    have h0 : HInv gen { c := (getSession cfg gen { st := st, ck := q.ck, hd := q.hd, qr := q.qr }).1,
-                         mw := some (getSession cfg gen { st := st, ck := q.ck, hd := q.hd, qr := q.qr }).2,
-                         cur := .mw } := by
-      refine ⟨hg.1.inv, ?_, ?_⟩
-      · intro s hs; simp only [Option.some.injEq] at hs; subst hs; exact hg.2
-      · intro s hs; simp at hs
-    have hr := runScript_inv cfg q.script h0
-    have hm := Nat.le_trans hg.1.mono hr.2
-    split
-    · rename_i s hs
-      split
-      · exact ⟨hr.1.inv, hm⟩
-      · have hsv := sessSave_step (cfg := cfg) hr.1.inv s (hr.1.mw s hs)
-        constructor
-        · exact release_inv hsv.1.inv _
-        · have h1 := hsv.1.mono
-          simp only [release_nid]
-          dsimp only at hm h1 ⊢
-          omega
-    · exact ⟨hr.1.inv, hm⟩
-  · have h0 : HInv gen { c := { st := st, ck := q.ck, hd := q.hd, qr := q.qr }, mw := none, cur := .none } := by
-      refine ⟨hi, ?_, ?_⟩ <;> intro s hs <;> simp at hs
-    have hr := runScript_inv cfg q.script h0
-    exact ⟨hr.1.inv, hr.2⟩
+  · have hf := mwFinish_inv cfg hr.1
+    exact ⟨hf.1, Nat.le_trans h0.2 (Nat.le_trans hr.2 hf.2)⟩
+  · exact ⟨hr.1.inv, Nat.le_trans h0.2 hr.2⟩
 
 theorem run_inv {gen : Nat → Bytes} (cfg : Cfg) (ops : List Op) {st : St} (hi : Inv gen st) :
     Inv gen (run cfg gen st ops).1 := by
